@@ -158,34 +158,60 @@ def drive(fresh, steps, restarts, via, measure, feed=None, probe=None):
   """One run.  fresh(i) builds a new instance (i = 0 initially, i = step index + 1 for the
   instance built at a restart before that step).  Own mode (feed None): the run's own suggestions
   become trials 1,2,… and are completed by `measure`; shadow mode: the (completed, active) trial
-  lists recorded by another run are delivered instead.  Returns (records, feed)."""
+  lists recorded by another run are delivered instead.  Returns (records, feed).  An exception
+  raised by the designer ends the run with a record {'exc': ...} (compared like any other output)."""
   from vizier import algorithms as vza
   d = fresh(0)
   recs, out_feed, pending, tid = [], [], [], 0
   for i, st in enumerate(steps):
-    if restarts[i]:
-      md = via(d.dump())
-      d = fresh(i + 1)
-      d.load(md)
-    if feed is None:
-      k = min(st['complete'], len(pending))
-      completed = [measure.complete(t) for t in pending[:k]]
-      pending = pending[k:]
-      active = list(pending)
-    else:
-      completed, active = copy.deepcopy(feed[i])
-    out_feed.append((copy.deepcopy(completed), copy.deepcopy(active)))
-    d.update(vza.CompletedTrials(completed), vza.ActiveTrials(active))
-    sug = list(d.suggest(st['count']))
-    if feed is None:
-      for s in sug:
-        tid += 1
-        pending.append(s.to_trial(tid))
-    rec = {'sug': [canon_suggestion(s) for s in sug], 'dump': canon_md(d.dump(), DUMP_DROP)}
-    if probe is not None:
-      rec['probe'] = probe(d, sug)
+    try:
+      if restarts[i]:
+        md = via(d.dump())
+        d = fresh(i + 1)
+        d.load(md)
+      if feed is None:
+        k = min(st['complete'], len(pending))
+        completed = [measure.complete(t) for t in pending[:k]]
+        pending = pending[k:]
+        active = list(pending)
+      else:
+        completed, active = copy.deepcopy(feed[i])
+      out_feed.append((copy.deepcopy(completed), copy.deepcopy(active)))
+      d.update(vza.CompletedTrials(completed), vza.ActiveTrials(active))
+      sug = list(d.suggest(st['count']))
+      if feed is None:
+        for s in sug:
+          tid += 1
+          pending.append(s.to_trial(tid))
+      rec = {'sug': [canon_suggestion(s) for s in sug], 'dump': canon_md(d.dump(), DUMP_DROP)}
+      if probe is not None:
+        rec['probe'] = probe(d, sug)
+    except Exception as e:  # pylint: disable=broad-except
+      recs.append({'exc': '%s: %s' % (type(e).__name__, str(e)[:300]), 'sug': None, 'dump': None, 'probe': None})
+      break
     recs.append(rec)
   return recs, out_feed
+
+
+def live_failed(c, kind, a):
+  """the live run itself raised: nothing to compare (not a restart matter)"""
+  if a and 'exc' in a[-1]:
+    c.dist['live-run-raised:' + kind] = c.dist.get('live-run-raised:' + kind, 0) + 1
+    if len(c.notes) < 5:
+      c.notes.append('%s: the live run raised %s (case skipped)' % (kind, a[-1]['exc'][:200]))
+    return True
+  return False
+
+
+def restart_raised(c, kind, case, a, b):
+  """run B raised where run A did not"""
+  if b and 'exc' in b[-1]:
+    i = len(b) - 1
+    c.prop_fail(kind + '-restart-raises',
+                '%s: the run with restarts raises at step %d (%s); the live run does not' % (kind, i, b[-1]['exc']),
+                dict(case, step=i, error=b[-1]['exc']))
+    return True
+  return False
 
 
 def first_diff(a, b, fields):
@@ -299,6 +325,8 @@ def grid_designer_stage(c, n_cases):
     a, _ = drive(fresh, steps, [False] * len(steps), via_object, measure)
     b, _ = drive(fresh, steps, restarts, VIAS[via], measure)
     c.traces += 2
+    if live_failed(c, 'grid', a) or restart_raised(c, 'grid', case, a, b):
+      continue
     c.count(1, ('grid', ci) if (any(restarts[1:]) and n > 1) else None, kind='designer:grid')
     # ---- hypotheses of the model, checked on the real objects
     exp_ok = True
@@ -382,6 +410,8 @@ def quasi_random_stage(c, n_cases):
     a, _ = drive(fresh, steps, [False] * len(steps), via_object, measure)
     b, _ = drive(fresh, steps, restarts, VIAS[via], measure)
     c.traces += 2
+    if live_failed(c, 'quasi-random', a) or restart_raised(c, 'quasi-random', case, a, b):
+      continue
     c.count(1, ('qr', ci) if any(restarts[1:]) else None, kind='designer:quasi_random')
     fd = first_diff(a, b, ['sug', 'dump'])
     if fd is not None:
@@ -444,6 +474,8 @@ def eagle_stage(c, n_cases):
     a, _ = drive(fresh, steps, [False] * len(steps), via_object, measure, probe=probe)
     b, _ = drive(fresh, steps, restarts, VIAS[via], measure, probe=probe)
     c.traces += 2
+    if live_failed(c, 'eagle', a) or restart_raised(c, 'eagle', case, a, b):
+      continue
     evolved = any(r['probe']['pool'] >= r['probe']['capacity'] for r in a)
     c.count(1, ('eagle', ci) if (evolved and any(restarts[1:])) else None, kind='designer:eagle' + (':mutating' if evolved else ':filling-pool'))
     fd = first_diff(a, b, ['sug', 'dump'])
@@ -480,6 +512,8 @@ def identify_evo_variant(c):
   measure = Measure(1, ['m1', 'm2'], p_infeasible=0.0)
   a, feed = drive(fresh, steps, [False, False, False], via_object, measure, probe=nsga_probe)
   b, _ = drive(fresh, steps, [False, False, True], via_proto, measure, feed=feed, probe=nsga_probe)
+  if any('exc' in r for r in a + b):
+    raise core.InfraError('NSGA2 witness run raised: %s' % [r['exc'] for r in a + b if 'exc' in r])
   pa, pb = [r['probe']['phase'] for r in a], [r['probe']['phase'] for r in b]
   dumps_seen = (pa == pb)
   c.flags['evolutionDumpsNumTrialsSeen'] = dumps_seen
@@ -516,19 +550,24 @@ def nsga_stage(c, n_cases, dumps_seen):
     # shadow mode: the restarted run receives exactly the trial history of the live run
     b, _ = drive(fresh, steps, restarts, VIAS[via], measure, feed=feed, probe=nsga_probe)
     c.traces += 2
+    if live_failed(c, 'nsga2', a) or restart_raised(c, 'nsga2', case, a, b):
+      continue
     left_sampling = any(r['probe']['phase'] == 'mutation' for r in a)
     c.count(1, ('nsga2', ci) if (left_sampling and any(restarts[1:])) else None, kind='designer:nsga2' + (':left-sampling' if left_sampling else ':sampling-only'))
-    # (1) population
-    fd = first_diff(a, b, ['dump'])
+    # (1) population (the dumped trial counter is judged under (2))
+    for r in a + b:
+      r['seen_dumped'] = dict(r['dump']).get('|num_trials_seen')
+      r['population'] = [e for e in r['dump'] if e[0] != '|num_trials_seen']
+    fd = first_diff(a, b, ['population'])
     if fd is not None:
       i, _f = fd
       c.prop_fail('nsga2-restart-population-mismatch',
                   'NSGA2Designer: population after step %d differs between the live and the restarted run' % i,
-                  dict(case, step=i, live=a[i]['dump'], restarted=b[i]['dump']))
+                  dict(case, step=i, live=a[i]['population'], restarted=b[i]['population']))
     # (2) phase and trial counter
     for i, (x, y) in enumerate(zip(a, b)):
       px, py = x['probe'], y['probe']
-      if px['phase'] != py['phase'] or px['n'] != py['n'] or px['num_trials_seen'] != py['num_trials_seen']:
+      if px['phase'] != py['phase'] or px['n'] != py['n'] or px['num_trials_seen'] != py['num_trials_seen'] or x['seen_dumped'] != y['seen_dumped']:
         c.prop_fail(KEY_EVO_SEEN if not dumps_seen else 'nsga2-restart-phase-mismatch',
                     'NSGA2Designer: at step %d the live run is in phase %s (trials seen %s, %d suggestions), the restarted run in phase %s (trials seen %s, %d suggestions)' % (
                         i, px['phase'], px['num_trials_seen'], px['n'], py['phase'], py['num_trials_seen'], py['n']),
@@ -606,6 +645,8 @@ def cmaes_stage(c, n_cases):
     a, feed = drive(fresh, steps, [False] * len(steps), via_object, measure)
     b, _ = drive(fresh, steps, restarts, VIAS[via], measure)
     c.traces += 2
+    if live_failed(c, 'cmaes', a) or restart_raised(c, 'cmaes', case, a, b):
+      continue
     told = sum(len(f[0]) for f in feed) >= pop
     c.count(1, ('cmaes', ci) if (told and any(restarts[1:])) else None, kind='designer:cmaes' + (':aligned' if aligned else ':unaligned'))
     fd = first_diff(a, b, ['sug', 'dump'])
@@ -782,14 +823,14 @@ def service_grid_stage(c, n_cases, tmpdir, shuffled_ok):
       n = 1
       for d in desc:
         n *= 10 if d['kind'] == 'double' else (d['hi'] - d['lo'] + 1 if d['kind'] == 'int' else len(d['values']))
-      if len(set(d['name'] for d in desc)) == len(desc) and 2 <= n <= 40:
+      if len(set(d['name'] for d in desc)) == len(desc) and 2 <= n <= 24:
         break
     problem = build_problem(desc)
     base = grid_lists(grid.GridSearchDesigner(problem.search_space), '_unshuffled_grid_values')
     names = [nm for nm, _ in base]
     steps, tot = [], 0
     while tot < 2 * n + 2:
-      cnt = c.rng.choice([1, 2, 3, max(1, n // 2), n - 1 or 1])
+      cnt = c.rng.choice([1, 2, 3, 5, max(1, n // 2), n - 1 or 1])
       steps.append({'count': cnt, 'complete': c.rng.randrange(0, 4)})
       tot += cnt
     restarts = [c.rng.random() < 0.4 for _ in steps]
@@ -866,8 +907,11 @@ def service_shadow_stage(c, algorithm, n_cases, tmpdir, dumps_seen):
     metrics = (('obj', 'MAXIMIZE'),) if algorithm != 'NSGA2' else (('m1', 'MAXIMIZE'), ('m2', 'MINIMIZE'))
     problem = build_problem(desc, metrics)
     if algorithm == 'NSGA2':
-      # default population 50, first survival after 100 completed trials
-      steps = [{'count': 10, 'complete': 10} for _ in range(13)]
+      # default population 50, first survival after 100 completed trials.  In its mutation phase
+      # the designer returns one offspring per member whatever `count` says, and the service parks
+      # over-delivered suggestions and serves later requests from them without asking Pythia; asking
+      # for exactly one population per request keeps "one request = one policy call".
+      steps = [{'count': 50, 'complete': 0}] + [{'count': 50, 'complete': 50} for _ in range(4)]
     elif algorithm == 'CMA_ES':
       aligned = ci % 2 == 0
       steps = ([{'count': 6, 'complete': 6} for _ in range(4)] if aligned else gen_steps(c.rng, 7, max_count=4))
@@ -956,23 +1000,32 @@ def run(c):
   quick = c.tier == 'quick'
   tmpdir = tempfile.mkdtemp(prefix='vverif_c13_')
   try:
-    shuffled_ok = d10_witness(c, tmpdir)
-    dumps_seen = identify_evo_variant(c)
-    with_cma = cmaes_available(c)
+    import time
+    walls = {}
+
+    def timed(name, fn, *a):
+      t = time.time()
+      r = fn(*a)
+      walls[name] = round(walls.get(name, 0.0) + time.time() - t, 2)
+      return r
+    shuffled_ok = timed('witness:D10', d10_witness, c, tmpdir)
+    dumps_seen = timed('witness:evolution-counter', identify_evo_variant, c)
+    with_cma = timed('cmaes-smoke', cmaes_available, c)
     c.flags['cmaesRunnable'] = with_cma
-    grid_designer_stage(c, 60 if quick else 600)
-    quasi_random_stage(c, 30 if quick else 300)
-    eagle_stage(c, 14 if quick else 150)
-    nsga_stage(c, 30 if quick else 300, dumps_seen)
+    timed('designer:grid', grid_designer_stage, c, 60 if quick else 600)
+    timed('designer:quasi_random', quasi_random_stage, c, 30 if quick else 300)
+    timed('designer:eagle', eagle_stage, c, 14 if quick else 150)
+    timed('designer:nsga2', nsga_stage, c, 30 if quick else 300, dumps_seen)
     if with_cma:
-      cmaes_stage(c, 2 if quick else 12)
-    policy_stage(c, 12 if quick else 80, dumps_seen, with_cma)
-    service_grid_stage(c, 6 if quick else 40, tmpdir, shuffled_ok)
-    service_shadow_stage(c, 'QUASI_RANDOM_SEARCH', 2 if quick else 10, tmpdir, dumps_seen)
-    service_shadow_stage(c, 'EAGLE_STRATEGY', 2 if quick else 10, tmpdir, dumps_seen)
-    service_shadow_stage(c, 'NSGA2', 1 if quick else 3, tmpdir, dumps_seen)
+      timed('designer:cmaes', cmaes_stage, c, 2 if quick else 12)
+    timed('policy', policy_stage, c, 12 if quick else 80, dumps_seen, with_cma)
+    timed('service:grid', service_grid_stage, c, 6 if quick else 40, tmpdir, shuffled_ok)
+    timed('service:quasi_random', service_shadow_stage, c, 'QUASI_RANDOM_SEARCH', 2 if quick else 10, tmpdir, dumps_seen)
+    timed('service:eagle', service_shadow_stage, c, 'EAGLE_STRATEGY', 2 if quick else 10, tmpdir, dumps_seen)
+    timed('service:nsga2', service_shadow_stage, c, 'NSGA2', 1 if quick else 3, tmpdir, dumps_seen)
     if with_cma and not quick:
-      service_shadow_stage(c, 'CMA_ES', 2, tmpdir, dumps_seen)
+      timed('service:cmaes', service_shadow_stage, c, 'CMA_ES', 2, tmpdir, dumps_seen)
+    c.coverage_extra['stage_wall_s'] = walls
   finally:
     shutil.rmtree(tmpdir, ignore_errors=True)
     svc.cleanup()
